@@ -316,7 +316,7 @@ func randomHistory(r *core.Rand, n int) []string {
 }
 
 func (P) Gen(r *core.Rand, tier string, emit func([]string)) {
-	maxLen, maxFault, canonFault, nShort, nLong, nConc, nStorm, nHammer := 5, 4, 5, 300, 12, 24, 16, 150
+	maxLen, maxFault, canonFault, nShort, nLong, nConc, nStorm, nHammer := 5, 4, 5, 300, 12, 40, 16, 150
 	if tier == "thorough" {
 		maxLen, maxFault, canonFault, nShort, nLong, nConc, nStorm, nHammer = 7, 5, 6, 6000, 300, 400, 300, 3000
 	}
@@ -343,10 +343,16 @@ func (P) Gen(r *core.Rand, tier string, emit func([]string)) {
 	for i := 0; i < nLong; i++ {
 		emit(randomHistory(r, r.Range(150, 400)))
 	}
+	// the handler level, schedule by schedule
+	if tier == "thorough" {
+		hparkWords("abABx", "abABxe", 4, 2, emit)
+	} else {
+		hparkWords("abAB", "abABx", 3, 2, emit)
+	}
 	for i := 0; i < nConc; i++ {
 		g := 8
 		n := r.Range(4, 14)
-		mode := r.Pick("own", "shared", "reset")
+		mode := r.Pick("own", "shared", "reset", "hmix", "hmix")
 		emit([]string{"conc " + strconv.FormatUint(r.U64()>>1, 10) + " " + strconv.Itoa(g) + " " + strconv.Itoa(n) + " " + mode})
 	}
 	allD, allK, allW := []int{-1, 0, 1}, []int{1, 2, 3, 17}, []string{"tail", "head", "spread", "inside", "random"}
